@@ -10,6 +10,7 @@ import LekkerVerif.Core.HierSolve
 import LekkerVerif.Model.HierParams
 import LekkerVerif.Core.HierFlatten
 import LekkerVerif.Model.WiringNet
+import LekkerVerif.Core.WFCheck
 /-! Driver ops.  Each op runs executable definitions of the model on the decoded request. -/
 open Lean
 
@@ -129,6 +130,10 @@ def stToJson (s : St GRat) : Json :=
               ("members", toJson (St.membersOf s)),
               ("S", Json.arr (s.pins.map fun p => Json.arr (s.pins.map fun q => gratToJson (s.sem p q)).toArray).toArray)]
 
+/-- the hypotheses of the theorems about the elimination, evaluated on the circuit at hand (Core/WFCheck.lean) -/
+def hypJson (net : NetD GRat) : Json :=
+  Json.mkObj [("wf", net.wfB), ("idx", net.idxB), ("exposure", net.exposureB), ("nonempty", !net.comps.isEmpty)]
+
 def opSolve (j : Json) : Json :=
   match fromJson? (α := CaseJ) j with
   | .error e => errJson ("parse: " ++ e)
@@ -151,7 +156,7 @@ def opSolve (j : Json) : Json :=
         | .ok (total, steps) =>
           let rows := net.exposed.map fun e1 =>
             Json.arr (net.exposed.map fun e2 => gratToJson (total.sem e1.2 e2.2)).toArray
-          Json.mkObj [("T", Json.arr rows.toArray), ("pins", toJson total.pins.length),
+          Json.mkObj [("T", Json.arr rows.toArray), ("pins", toJson total.pins.length), ("hyp", hypJson net),
                       ("steps", Json.arr (steps.map stToJson).toArray)]
       else
       match Solve.loopWith sched n net.initial n with
@@ -159,7 +164,7 @@ def opSolve (j : Json) : Json :=
       | .ok total =>
         let rows := net.exposed.map fun e1 =>
           Json.arr (net.exposed.map fun e2 => gratToJson (total.sem e1.2 e2.2)).toArray
-        Json.mkObj [("T", Json.arr rows.toArray), ("pins", toJson total.pins.length)]
+        Json.mkObj [("T", Json.arr rows.toArray), ("pins", toJson total.pins.length), ("hyp", hypJson net)]
 
 /-! ### op `hsolve` : a hierarchy through `HNet.solveH` (every sub-circuit solved first, its exposed block handed up) -/
 
@@ -183,7 +188,7 @@ def opHSolve (j : Json) : Json :=
     match HNet.solveH Solve.pySched t with
     | .error e => errJson (errName e)
     | .ok c =>
-      Json.mkObj [("pins", toJson c.pins),
+      Json.mkObj [("pins", toJson c.pins), ("wftree", t.wfTreeB),
                   ("T", Json.arr (c.pins.map fun x => Json.arr (c.pins.map fun y => gratToJson (c.sem x y)).toArray).toArray)]
 
 /-! ### op `phsolve` : `top.solve(**kw)` of a parametric hierarchy (`PNet.psolve`: defaults registered at placement, dictionaries
@@ -241,7 +246,7 @@ def opPHSolve (j : Json) : Json :=
     match PNet.psolve Solve.pySched kw t with
     | .error e => Json.mkObj (base ++ [("err", Json.str (errName e))])
     | .ok c =>
-      Json.mkObj (base ++ [("pins", toJson c.pins),
+      Json.mkObj (base ++ [("pins", toJson c.pins), ("wftree", (PNet.inst kw t).wfTreeB),
                   ("T", Json.arr (c.pins.map fun x => Json.arr (c.pins.map fun y => gratToJson (c.sem x y)).toArray).toArray)])
   | _, _ => errJson "parse"
 
@@ -308,7 +313,7 @@ def opWSolve (j : Json) : Json :=
           let n := net.comps.length
           let r := match Solve.loopWith Solve.pySched n net.initial n with
             | .error e => errJson (errName e)
-            | .ok total => Json.mkObj [("names", toJson (net.exposed.map (·.1))),
+            | .ok total => Json.mkObj [("names", toJson (net.exposed.map (·.1))), ("hyp", hypJson net),
                 ("T", Json.arr (net.exposed.map fun e1 => Json.arr (net.exposed.map fun e2 => gratToJson (total.sem e1.2 e2.2)).toArray).toArray)]
           (acc.1, acc.2 ++ [r])
         | _ => match parseOpX op with
